@@ -83,6 +83,25 @@ CLAIMED["C19"] = dict(
     technique="stateless model checking: exhaustive event-history enumeration x deviation-bounded schedule exploration of the instrumented implementation",
     design_ref="§4 C19")
 
+CLAIMED["C08"] = dict(
+    category="exploration", engine="enum",
+    text="Bounded-exhaustive transport agreement on the real handlers (REST GET/POST on the status-mirroring and the openapi route, REST batch, gRPC Check via tuple field and flat fields, gRPC BatchCheck): 3 seeded stores x 2 configurations (rewrite-free and OR-only, so the free-running engine is deterministic) x 639 query tuples (subject id / subject set, known and unknown namespaces, adversarial strings) x 7 max-depth values; every batch sequence of length <=3 over an 8-letter alphabet plus batches at the configured maximum and maximum+1. Oracle: each transport's decision equals the engine's CheckIsMember on the mapped tuple; mirror route 200 iff allowed, 403 iff denied; unknown namespace never allowed; batch order/length preserved, batch(B)[i] = single(B[i]), an invalid entry changes no other entry; oversize and non-numeric depth are 4xx.",
+    note="Configurations restricted to those whose engine outcome is schedule independent (C01 shows singleton outcome sets for them); SQLite only.",
+    technique="bounded-exhaustive request enumeration with a differential oracle between transports and the engine",
+    design_ref="§4 C08")
+CLAIMED["C13"] = dict(
+    category="exploration", engine="enum",
+    text="Every REST route of the read, write and syntax routers (every method on every path, odd paths) and every gRPC method: the full product of core per-field choices {absent, null, empty, valid, wrong JSON type, negative, huge, oversized, array with null element, duplicate keys} plus every single-field (thorough: every pair) deviation, incl. every combination of absent optional protobuf sub-messages - 58k requests quick / 83k thorough - executed in worker subprocesses with a request journal so that a process death is attributed to the request in flight. Oracle: no handler panic, the worker does not die, status < 500 and gRPC code not Internal/Unknown (no storage fault injected), and a rejected request leaves the full table dump unchanged.",
+    note="SQLite only; RLIMIT_AS 4 GiB per worker; 7 gigabyte-sized bodies skipped in thorough.",
+    technique="bounded-exhaustive request-shape enumeration in journalled worker subprocesses with crash/panic/status/state oracles",
+    design_ref="§4 C13")
+CLAIMED["C16"] = dict(
+    category="exploration", engine="enum",
+    text="182 adversarial strings (empty, separators, escapes, NFC/NFD, RTL, emoji, 4-byte runes, 10 kB, case / trailing-space / ZWJ twins): all 33k ordered pairs for injectivity of the string<->UUID mapping; batches of sizes around 1, 50, 100, 150, 200, 250 (thorough 1..260, 301, 400, 401) x 5 duplicate patterns x {subject id, subject set, mixed} through Mapper.FromTuple->ToTuple, FromQuery->ToQuery (16 shapes) and ToTree, position-wise; end-to-end write -> list / expand / check over REST and gRPC; the reverse-lookup paging loop with explicit page sizes 1..5 x 0..12 ids and 99..201 ids at page sizes 7/50/99/100/101 (through an added, non-replacing method in the persister package).",
+    note="Which id falls on the page boundary at the production page size depends on Go map iteration order and is not controlled (stated in evidence); UUIDv5 collision freedom is taken as given.",
+    technique="bounded-exhaustive enumeration of names and batch shapes against round-trip / injectivity oracles",
+    design_ref="§4 C16")
+
 NOT_YET = "check not built yet in this revision (work in progress; see DESIGN.md §4 for the planned model-checking design)"
 
 
